@@ -68,7 +68,8 @@ proof_copy!(10, crate::c12::byte_copy, fn c12_seq_store_load() {
 });
 
 /// raw management API with run-time type details (size, alignment): the two cells do not overlap,
-/// stay inside the computed atomic size and store/load round-trips
+/// are aligned and stay inside the computed atomic size -- for every misalignment of the raw
+/// memory and every size that is a multiple of the alignment (address arithmetic only)
 fn raw_layout<const ALIGN: usize>() {
     let mut mem = Block::<128>::new();
     let mis: usize = kani::any();
@@ -84,8 +85,8 @@ fn raw_layout<const ALIGN: usize>() {
     unsafe {
         let raw = mem.0.as_mut_ptr().add(mis);
         let ptrs = __internal_calculate_atomic_mgmt_and_payload_ptr(raw, align);
-        let mgmt = &*(ptrs.atomic_mgmt_ptr as *const UnrestrictedAtomicMgmt);
         let base = ptrs.atomic_mgmt_ptr as usize;
+        assert!(base >= raw as usize && base < raw as usize + talign, "c12: management block not at the next aligned address");
         assert!(base % talign == 0, "c12: management block misaligned");
         let c0 = UnrestrictedAtomicMgmt::__internal_get_data_cell(size, align, ptrs.atomic_payload_ptr, 0);
         let c1 = UnrestrictedAtomicMgmt::__internal_get_data_cell(size, align, ptrs.atomic_payload_ptr, 1);
@@ -93,35 +94,54 @@ fn raw_layout<const ALIGN: usize>() {
         assert!(c0 + size <= c1 || c1 + size <= c0, "c12: data cells overlap");
         assert!(c0 >= base + core::mem::size_of::<UnrestrictedAtomicMgmt>(), "c12: data cell overlaps the management block");
         assert!(c0 + size <= base + total && c1 + size <= base + total, "c12: data cell outside the computed atomic size");
-        // store through the raw API, load back
-        let val: [u8; 12] = kani::any();
-        let w = mgmt.__internal_get_ptr_to_write_cell(size, align, ptrs.atomic_payload_ptr);
-        assert!(w as usize == c1, "c12: first write goes to the cell the readers are not using");
-        let mut i = 0;
-        while i < 12 {
-            if i < size {
-                *w.add(i) = val[i];
-            }
-            i += 1;
-        }
-        mgmt.__internal_update_write_cell();
-        let mut out = [0u8; 12];
-        mgmt.load(out.as_mut_ptr(), size, align, ptrs.atomic_payload_ptr);
-        let mut i = 0;
-        while i < 12 {
-            if i < size {
-                assert!(out[i] == val[i], "c12: raw load differs from the stored bytes");
-            }
-            i += 1;
-        }
     }
     kani::cover!(size + align > 12 && mis == 7, "largest value at the worst misalignment");
+    canaries();
+}
+
+/// store through the raw API and load back, at a concrete misalignment and size (the pointer
+/// arithmetic for every misalignment/size is covered by `raw_layout`)
+fn raw_roundtrip<const ALIGN: usize, const SIZE: usize, const MIS: usize>() {
+    let mut mem = Block::<128>::new();
+    let (size, align) = (SIZE, ALIGN);
+    unsafe {
+        let raw = mem.0.as_mut_ptr().add(MIS);
+        let ptrs = __internal_calculate_atomic_mgmt_and_payload_ptr(raw, align);
+        let mgmt = &*(ptrs.atomic_mgmt_ptr as *const UnrestrictedAtomicMgmt);
+        let c1 = UnrestrictedAtomicMgmt::__internal_get_data_cell(size, align, ptrs.atomic_payload_ptr, 1);
+        let mut round = 0;
+        while round < 2 {
+            let val: [u8; SIZE] = kani::any();
+            let w = mgmt.__internal_get_ptr_to_write_cell(size, align, ptrs.atomic_payload_ptr);
+            if round == 0 {
+                assert!(w as usize == c1, "c12: first write goes to the cell the readers are not using");
+            }
+            let mut i = 0;
+            while i < SIZE {
+                *w.add(i) = val[i];
+                i += 1;
+            }
+            mgmt.__internal_update_write_cell();
+            let mut out = [0u8; SIZE];
+            mgmt.load(out.as_mut_ptr(), size, align, ptrs.atomic_payload_ptr);
+            let mut i = 0;
+            while i < SIZE {
+                assert!(out[i] == val[i], "c12: raw load differs from the stored bytes");
+                i += 1;
+            }
+            round += 1;
+        }
+    }
+    kani::cover!(true, "round trip completed");
     canaries();
 }
 
 proof_copy!(14, crate::c12::byte_copy, fn c12_seq_raw_layout_align1() { raw_layout::<1>(); });
 proof_copy!(14, crate::c12::byte_copy, fn c12_seq_raw_layout_align4() { raw_layout::<4>(); });
 proof_copy!(14, crate::c12::byte_copy, fn c12_seq_raw_layout_align8() { raw_layout::<8>(); });
+proof_copy!(14, crate::c12::byte_copy, fn c12_seq_raw_roundtrip_a1_s3_m7() { raw_roundtrip::<1, 3, 7>(); });
+proof_copy!(14, crate::c12::byte_copy, fn c12_seq_raw_roundtrip_a4_s12_m5() { raw_roundtrip::<4, 12, 5>(); });
+proof_copy!(14, crate::c12::byte_copy, fn c12_seq_raw_roundtrip_a8_s8_m1() { raw_roundtrip::<8, 8, 1>(); });
 
 // ==========================================================================================
 // engine S
